@@ -45,6 +45,7 @@ from rs2lean_loops import K, Ctl, LoopCtx, LParser, is_ivar, paren, tokenize, tu
 from rs2lean_bfe import CTX, map_ast
 
 X = {
+    "field": False,      # P10: `Self` is an abstract finite field (opaque `D`), its operations are parameters
     "opaque": False,     # digests are opaque (`D`), hash_pair is the parameter `H`
     "plens": {},         # rust name of a translated function -> [array length (int) or None per parameter]
     "mp_struct_ok": False,
@@ -65,6 +66,12 @@ def make_lean_ty(base):
             return "Nat"
         if ty == "hfun":
             return "D → D → D"
+        # BEGIN P10
+        if ty == "ufun":
+            return "D → D"
+        if ty == "pfun":
+            return "D → Bool"
+        # END P10
         if isinstance(ty, tuple) and ty and ty[0] == "iter":
             return "List " + L.lean_ty_atom(ty[1])
         if isinstance(ty, tuple) and ty and ty[0] == "chunks":
@@ -136,6 +143,18 @@ class BT4Parser(B.BfeParser):
                     self.expect("]")
                     return ("vecrep", x, n)
             self.i = save
+        # BEGIN P10: `Vec::<T>::new()`
+        if k == "id" and v == "Vec" and self.peek(1)[1] == "::" and self.peek(2)[1] == "<":
+            self.next(); self.next(); self.next()
+            ty = self.parse_type()
+            self.expect(">")
+            self.expect("::")
+            if self.next() != ("id", "new"):
+                raise Unsupported("turbofish path other than Vec::<T>::new()")
+            self.expect("(")
+            self.expect(")")
+            return ("vecnew_t", ty)
+        # END P10
         if k == "op" and v == "(":
             save = self.i
             self.next()
@@ -351,7 +370,7 @@ class BT4Emitter(B.BfeEmitter):
         return B.BfeEmitter.tyname(self, ty)
 
     def param_type_ok(self, ty):
-        if ty in ("digest", "hfun"):
+        if ty in ("digest", "hfun", "ufun", "pfun"):      # P10: ufun, pfun
             return True
         if isinstance(ty, tuple) and ty[0] in ("array", "vec") and ty[1] == "digest":
             return True
@@ -456,6 +475,13 @@ class BT4Emitter(B.BfeEmitter):
             return f"(List.replicate {paren(c)} {paren(v)})", ("vec", vty), self.conj(vok, cok)
         if k == "range":
             raise Unsupported("range expression outside the supported idioms")
+        # BEGIN P10
+        if k == "vecnew_t":
+            ety = self.tyname(e[1])
+            if isinstance(exp, tuple) and exp[0] == "vec":
+                self.unify(exp[1], ety, "Vec::<T>::new()")
+            return "[]", ("vec", ety), None
+        # END P10
         if k == "path" and e[1] == ["PARALLELIZATION_CUTOFF"] and X["opaque"] and X.get("cutoff_static_ok") \
                 and "PARALLELIZATION_CUTOFF" not in env and "cutoff" in env:
             return env["cutoff"][0], "usize", None
@@ -483,8 +509,40 @@ class BT4Emitter(B.BfeEmitter):
                 return r
         return B.BfeEmitter.emit(self, e, env, exp)
 
+    # BEGIN P10: the abstract finite field (`X["field"]`): `Self` is the opaque type `D`, its operations are parameters
+    def emit_bin(self, e, env, exp):
+        _, op, l, r = e
+        if X.get("field") and op in ("+", "-", "*", "/", "==", "!="):
+            saved = self.dirty
+            a, aty, aok = self.emit(l, env, None)
+            self.dirty = saved
+            if self.resolve(aty) == "digest":
+                if op != "*" or "f_mul" not in env:
+                    raise Unsupported(f"operator {op} of the abstract field")
+                b, bty, bok = self.emit(r, env, "digest")
+                if self.resolve(bty) != "digest":
+                    raise Unsupported("`*` of a field element and something else")
+                return f"({env['f_mul'][0]} {paren(a)} {paren(b)})", "digest", self.conj(aok, bok)
+        return B.BfeEmitter.emit_bin(self, e, env, exp)
+
+    def emit_field_mcall_p10(self, e, env):
+        _, recv, name, args = e
+        if not (X.get("field") and name in ("is_zero", "inverse") and not args):
+            return None
+        a, aty, aok = self.emit(recv, env, "digest")
+        if self.resolve(aty) != "digest":
+            raise Unsupported(f"{name}() on something that is not a field element")
+        if name == "is_zero":
+            return f"({env['f_is_zero'][0]} {paren(a)})", "bool", aok
+        return f"({env['f_inverse'][0]} {paren(a)})", "digest", self.conj(aok, f"({env['f_inverse_ok'][0]} {paren(a)})")
+    # END P10
+
     def emit_call4(self, e, env, exp):
         path, args = e[1], e[2]
+        # BEGIN P10
+        if X.get("field") and path in (["Self", "zero"], ["Self", "one"]) and not args:
+            return env["f_" + path[1]][0], "digest", None
+        # END P10
         if path in (["iter", "once"], ["std", "iter", "once"], ["iter", "repeat"], ["std", "iter", "repeat"]) and len(args) == 1:
             self.check_no_partial(args[0])
             t, ty, ok = self.emit(args[0], env, None)
@@ -546,6 +604,8 @@ class BT4Emitter(B.BfeEmitter):
         _, recv, name, args = e
         # BEGIN P10
         r = self.emit_mcall_p10(e, env, exp)
+        if r is None:
+            r = self.emit_field_mcall_p10(e, env)
         if r is not None:
             return r
         # END P10
@@ -729,6 +789,7 @@ class BT4Emitter(B.BfeEmitter):
 # --------------------------------------------------------------------------------------------------------
 
 OPAQUE_PARAMS = ("H", "d0", "hash0", "digest_default", "cutoff")
+FIELD_PARAMS = ("f_zero", "f_one", "f_mul", "f_is_zero", "f_inverse", "f_inverse_ok")      # P10
 STRICT_KINDS = ("cast", "field", "fieldn", "not", "neg", "mutref", "toarray")
 
 
@@ -1313,13 +1374,15 @@ class BT4Translator(B.BfeFnTranslator):
         names = B.BfeFnTranslator.free_in(self, parts, env)
         if X["opaque"]:
             names = names | set(OPAQUE_PARAMS)
+        if X.get("field"):      # P10
+            names = names | set(FIELD_PARAMS)
         return names
 
     def translate(self):
         if X["opaque"]:
             # the parameters added by this module keep their names: the Rust text must not use them
             for k, v in tokenize(self.src):
-                if k == "id" and v in OPAQUE_PARAMS:
+                if k == "id" and (v in OPAQUE_PARAMS or (X.get("field") and v in FIELD_PARAMS)):      # P10: FIELD_PARAMS
                     raise Unsupported(f"identifier {v} clashes with a parameter added by the translator")
         self.em.ret_hint = None
         if self.ret_ast is not None:
@@ -1368,7 +1431,7 @@ def translate_fn4(src, rust_name, lname, rel, consts, fns, pfns, fuel, after=Non
     params_text, ret_text, body = find_fn(src, rust_name, after)
     if X["opaque"]:
         for k, v in tokenize(params_text):
-            if k == "id" and v in OPAQUE_PARAMS:
+            if k == "id" and (v in OPAQUE_PARAMS or (X.get("field") and v in FIELD_PARAMS)):      # P10: FIELD_PARAMS
                 raise Unsupported(f"parameter {v} clashes with a parameter added by the translator")
     probe = BT4Emitter(consts, fns, pfns, rust_name)
     probe.self_ty_override = self_ty
@@ -1569,6 +1632,29 @@ def run_inner(status, changed, fns, read_src):
         ]
         run_group4(status, changed, "MerkleLoops", mt_rel, ["TF.Gen.Consts", "TF.Model.RustIter"], pre, merkle_specs,
                    read_src, {}, {})
+        # BEGIN P10: the provided method `FiniteField::batch_inversion` over an ABSTRACT field: `Self` is the opaque type `D`,
+        # `Self::zero()`, `Self::one()`, `*` (and `*=`, checked below to be `*self = *self * rhs` in both implementations),
+        # `is_zero()`, `inverse()` (with its panic flag) are parameters
+        X["field"] = True
+        try:
+            tr_rel = "twenty-first/src/math/traits.rs"
+            xfe_rel = "twenty-first/src/math/x_field_element.rs"
+            pat = r"impl\s+MulAssign(?:<{T}>)?\s+for\s+{T}\s*\{{\s*(?:#\[inline\]\s*)?fn\s+mul_assign\(&mut\s+self,\s*rhs:\s*Self\)\s*\{{\s*\*self\s*=\s*\*self\s*\*\s*rhs\s*;\s*\}}\s*\}}"
+            mul_assign_ok = bool(re.search(pat.format(T="BFieldElement"), bfe)) and \
+                bool(re.search(pat.format(T="XFieldElement"), read_src(xfe_rel) or ""))
+            FP = [("f_zero", "digest"), ("f_one", "digest"), ("f_mul", "hfun"), ("f_is_zero", "pfun"), ("f_inverse", "ufun"),
+                  ("f_inverse_ok", "pfun"), ("d0", "digest")]
+            field_specs = [
+                dict(lname="ff_batch_inversion", rname="batch_inversion", rel=tr_rel, after=r"pub trait FiniteField", pre=FP,
+                     self_ty="digest", free=True),
+            ]
+            if not mul_assign_ok:
+                status["failed"]["fn ff_batch_inversion"] = "bt4: a MulAssign impl is not `*self = *self * rhs`"
+                field_specs = []
+            run_group4(status, changed, "FieldLoops", tr_rel, ["TF.Model.RustIter"], pre, field_specs, read_src, {}, {})
+        finally:
+            X["field"] = False
+        # END P10
     finally:
         X["opaque"] = False
         CTX["sigs"] = saved_sigs
